@@ -27,7 +27,7 @@ def _replay_from_sparse(ctx, cases):
         data = np.asarray([c['data'] for c in cs], dtype=np.float32)
         cols = np.asarray([c['cols'] for c in cs], dtype=np.int64)
         exp = np.asarray([c['dense'] for c in cs], dtype=np.float32).reshape((len(cs), len(chans)))
-        for variant in ('stack', 'trail', 'empty', 'uint'):
+        for variant in ('stack', 'trail', 'empty', 'uint', 'int32-twice'):
             ctx.traces += 1
             with ctx.guard('from_sparse', dict(cols=as_list(cols), data=as_list(data), chans=chans)):
                 if variant == 'stack':
@@ -42,6 +42,14 @@ def _replay_from_sparse(ctx, cases):
                 elif variant == 'empty':
                     out = from_sparse(data[:0], cols[:0], chans)
                     ok = out.shape == (0, len(chans))
+                elif variant == 'int32-twice':
+                    # a contiguous int32 table, used for a request of ONE channel first and for the full request after:
+                    # the caller's table is an input, it must come back untouched and serve every later call
+                    c32 = np.ascontiguousarray(cols, dtype=np.int32)
+                    keep = c32.copy()
+                    from_sparse(data, c32, chans[:1])
+                    out = from_sparse(data, c32, chans)
+                    ok = out.shape == exp.shape and np.array_equal(out, exp) and np.array_equal(c32, keep)
                 else:
                     out = from_sparse(data, cols.astype(np.uint32), np.asarray(chans, dtype=np.uint32))
                     ok = out.shape == exp.shape and np.array_equal(out, exp)
